@@ -147,8 +147,10 @@ class MD6(object):
         l = 0
         while 1:
             l += 1
-            if l==self.L+1: return self.SEQ(M,bitlen)
-            M = self.PAR(l,M,bitlen)
+            if l==self.L+1:
+                M = self.SEQ(M,bitlen)
+            else:
+                M = self.PAR(l,M,bitlen)
             bitlen = None
             if len(M)==128:
                 h = Bits(M)>>(1024-self.size)
@@ -176,9 +178,7 @@ class MD6(object):
             W[25:41] = C
             W[41:89] = B[i]
             C = self.f(W)
-        h = concat(list(C)[::-1])
-        h.size = self.size
-        return pack(h,'>L')
+        return b''.join((pack(c,'>L') for c in C))
 
     def PAR(self,l,M,bitlen=None):
         pad = Nullpadding(4096)
